@@ -862,6 +862,16 @@ def check_flag_plumbing(rep, repo):
         for e in calls:
             flag = e.args[1] if len(e.args) > 1 else dict(getattr(e, 'kw', ()) or ()).get(gr.params[2] if len(gr.params) > 2 else 'stable_correctness')
             ok = flag is not None and flag in (OPT, CALL(S('bool'), [OPT]), CMP('Eq', OPT, TRUE), CMP('Is', OPT, TRUE), ('ite', OPT, TRUE, FALSE))
+            if flag is not None and not ok:
+                # decided by its truth table over the option
+                try:
+                    vals = []
+                    for v_ in (True, False):
+                        te = TermEval(lambda t, v_=v_: v_ if t == OPT else TNOATOM)
+                        vals.append(bool(te.truth(te.ev(flag))))
+                    ok = vals == [True, False]
+                except Unknown:
+                    ok = False
             rep.check(ok, 'C06.R4', g.where, '%s asks for stability_correct exactly when the stability option is set' % name, got=show(flag)[:100] if flag is not None else 'no flag passed',
                       want='extra_constraints[STAB]', construct='stability flag of %s' % name, loc=e.loc)
 
